@@ -507,6 +507,13 @@ func newDriver(p *Plan, keepLog bool) *Driver {
 	}
 	d.store = NewStore(p.TTL, p.Store.Dialect)
 	for i, c := range p.Insts {
+		if p.Sched.InLock > 0 && !p.Sched.Free {
+			// with goroutines parked inside critical sections a Metrics observer would report a flag
+			// change only where the library calls it - possibly after the park, when lock-free readers
+			// have long seen it: the flag is polled (whatever the plan says; the minimiser may have
+			// dropped the option)
+			c.NoMetrics = true
+		}
 		d.insts = append(d.insts, &Inst{d: d, idx: i, cfg: c, nKind: map[string]int{}})
 		if c.NoMetrics && !p.Sched.Free {
 			d.hasBare = true
